@@ -107,6 +107,21 @@ example : toString 0x430C6BF526340000 = [49,48,48,48,48,48,48,48,48,48,48,48,48,
 example : toString 0x3E8421F5F40D8376 = [49, 46, 53, 101, 45, 48, 55] := by decide +kernel
 example : FracDigits 0x3F1A36E2EB1C432D := by decide +kernel
 
+/-- "fixed notation with a `.0` for integers": a finite double whose value is the integer `n`
+    and whose decimal exponent is in [-4, 16) is rendered as the digits of `n` followed by `.0`. -/
+theorem repr_integer_dot_zero (bits n : Nat) (hf : isFinite bits = true)
+    (hn : (ratOf (decompose bits).2.1 (decompose bits).2.2).1 = n * (ratOf (decompose bits).2.1 (decompose bits).2.2).2)
+    (hr : (shortest bits).2 < 16 ∧ (shortest bits).2 > -5) :
+    toString bits = (if isNeg bits then [45] else []) ++ showDigits (natDigits n) ++ [46, 48] := by
+  unfold toString
+  simp only [hf, if_true]
+  rw [show (shortestExpL bits) = ((shortestExpL bits).1, (shortestExpL bits).2) from rfl]
+  simp only [shortestExpL_snd, hr, and_self, if_true, isInteger_of_integer bits n hf hn]
+  exact fixed1_of_integer bits n hf hn
+
+example : toString 0x40FE240000000000 = [49, 50, 51, 52, 53, 54, 46, 48] := by decide +kernel   -- 123456.0
+
+
 /-! ### `is_integer`: where the EPSILON window differs from "is an integer" -/
 
 
